@@ -153,9 +153,20 @@ func runC08(p *engine.Prog, r *engine.Report) {
 				nTrue++
 				ck := fmt.Sprintf("store#%d in %s", nTrue, engine.FuncName(fn))
 				where := c.at(st)
+				// "flag = cond" sets the flag exactly when cond holds: everything below is decided under that assumption
+				var assume *engine.Formula
 				if !isConstBool(st.Val, true) {
-					r.Add("R8.1-flag", ck, "store to shardInfo.changeAble at "+where, "the in-sync flag is only ever set to the constant true under the full guard", "stores a computed value "+fi.T(st.Val).S, engine.Violated)
-					continue
+					if b, ok := st.Val.Type().Underlying().(*types.Basic); !ok || b.Kind() != types.Bool {
+						r.Add("R8.1-flag", ck, "store to shardInfo.changeAble at "+where, "the in-sync flag is only ever set to the constant true under the full guard", "stores a computed value "+fi.T(st.Val).S, engine.Violated)
+						continue
+					}
+					assume = fi.Cond(st.Val)
+				}
+				under := func(f *engine.Formula) *engine.Formula {
+					if assume == nil {
+						return f
+					}
+					return engine.Or(engine.Not(assume), f)
 				}
 				base := fa.X
 				// find the report calls feeding this shardInfo
@@ -188,7 +199,7 @@ func runC08(p *engine.Prog, r *engine.Report) {
 				needTxt = append(needTxt, "shard.Ready")
 				need = append(need, errNilAtom(fi, ts[0], 1))
 				needTxt = append(needTxt, "TargetStatus err == nil")
-				ok1, have := fi.Implies(st.Block(), engine.And(need...))
+				ok1, have := fi.Implies(st.Block(), under(engine.And(need...)))
 				okAll := ok1
 				haveTxt := strings.Join(have, " ∧ ")
 				// every RuntimeInfo call: same receiver, error checked on every path from it to the flag
@@ -217,7 +228,7 @@ func runC08(p *engine.Prog, r *engine.Report) {
 						if fa2, ok := u.X.(*ssa.FieldAddr); ok && engine.FieldOf(fa2) == fCfgHash {
 							ct := fi.T(u).S
 							if fi.ImpliesVersioned(st, func(at ssa.Instruction) *engine.Formula {
-								return engine.EqAtom(ct, fi.FieldPath(fi.T(base).S, at, c.fRuntime, c.fCfgHash))
+								return under(engine.EqAtom(ct, fi.FieldPath(fi.T(base).S, at, c.fRuntime, c.fCfgHash)))
 							}) {
 								// the ConfigInfo must come from the injected getConfig
 								if cv, ok := fi.Calls[fi.T(fa2.X).S]; ok {
